@@ -264,5 +264,7 @@ func init() {
 		}
 		errRulesFor(run, p, "primitives/sr25519")
 		arithmeticFoundations(c)
+		groupFoundations(c, true)
+		transcriptFoundations(c)
 	}
 }
